@@ -31,7 +31,8 @@ INVALID = ["c328", "80", "bf", "ff", "c3", "e4b8", "f09f98", "eda080", "c0af", "
 ESCS = ["1b5b33316d", "1b5b6d", "1b5b303b316d", "1b5b324b", "1b5b33383b353b3230306d", "1b5b34383b323b313b323b336d", "1b5b306d"]
 TERMS_OTHER = {10: ["00", "0d", "0d0d", "000d", "0d00"], 0: ["0a", "0d", "0d0a", "0a0d", "0d0d0a"]}
 READS = [1, 1, 2, 3, 5, 8, 13, 64, 1023, 1024, 1025, 4096, 8192]
-FIELDS = ["1", "2", "2..", "..2", "-1", "1,3", "3..", "-2..", "1..", ".."]
+FIELDS = ["1", "2", "2..", "..2", "-1", "1,3", "3..", "-2..", "1..", "..", "2,1", "2,2", "1,1", "3,1,2", "2,1,3", "-1,1"]
+PERMS = ["2,1", "2,2", "1,1", "3,1,2", "2,1,3", "-1,1"]
 DELIMS = ["2c", "5b3a2c5d", "09", "782b", "3a3a", "5c7c"]
 QUERIES = ["61", "62", "78", "7a", "6162", "6261", "7861"]
 
@@ -114,6 +115,19 @@ def gen(rng, tier, n):
         # terminator must not be able to cut a sequence, so exotic terminators get no sequences
         esc_ok = rng.random() < 0.5 and (not ansi or term in (10, 0))
         toks = gen_stream(rng, term, tier, esc_ok)
+        if wn in PERMS and rng.random() < 0.7:
+            # directed: lines of 1..4 short fields separated by single delimiters, so that a re-ordering /
+            # repetition of fields has the same length as the line but different content
+            d = "20" if delim == "_" else {"2c": "2c", "09": "09", "3a3a": "3a3a"}.get(delim, None)
+            if d is None:
+                delim, d = "_", "20"
+            toks = []
+            for _ in range(rng.randint(1, 4)):
+                fs = ["".join(rng.choice(["61", "62", "63", "78", "c3a9"]) for _ in range(rng.randint(1, 2))) for _ in range(rng.randint(1, 4))]
+                toks.append(d.join(fs))
+                toks.append("%02x" % term)
+            if rng.random() < 0.3:
+                toks.pop()
         if ansi and term not in (10, 0):
             ansi = False
         yield "%s;%d;%d;%d;%s;%s;%s;%s;%s;%s|%s" % ("cli" if cli else "lib", term, p0, int(ansi), wn, nth, delim, query,
